@@ -55,7 +55,7 @@ func smallShape(r *engine.RNG, kind string) *engine.Shape {
 	case "lease", "lease2":
 		sh.U = []uint64{uint64(r.Intn(1 << 31)), uint64(4102444800 + r.Intn(1<<20))}
 	case "sig", "offsignew":
-		sh.Sig = r.PickInt(7, 7, 11, 0, 1, 2, 3)
+		sh.Sig = r.PickInt(7, 7, 11, 8, 0, 1, 2, 3)
 		sh.N = r.PickInt(7, 11, 0, 1)
 	}
 	return sh
